@@ -689,7 +689,8 @@ class Printer:
 
     def program(self, p: dict) -> None:
         for imp in p.get("imports", []):
-            self.t("import"); self.t(spell_string(imp)); self.t(";"); self.nl()
+            r = self.rs("str")
+            self.t("import"); self.t(r.string(imp, single_only=True) if r else spell_string(imp)); self.t(";"); self.nl()
         order = p.get("order")
         items: list[tuple[str, dict]] = [("m", m) for m in p.get("macros", [])] + [("r", r) for r in p["routines"]]
         if order:
